@@ -174,7 +174,9 @@ def classify_trigger(case, world, callers):
 
 def run_case(case, record_sites=False):
     world, pool_cfg, callers, scheme, maxc = build(case)
-    run = AioRun(world, pool_cfg, callers, choices=case.get("choices", ()), segs=case.get("segs", ()), epilogue=epilogue)
+    from ..trio_run import make_run
+
+    run = make_run(case.get("runtime"))(world, pool_cfg, callers, choices=case.get("choices", ()), segs=case.get("segs", ()), epilogue=epilogue)
     run.scheme = scheme
     run.record_sites = record_sites
     run.result = {}
@@ -190,12 +192,14 @@ def judge(case, run, world, callers):
     trigger, phase = classify_trigger(case, world, callers)
     fired = trigger != "none" and phase != "not-reached"
     base = dict(conn=case["kind"] if family in ("direct", "prior") else family, trigger=trigger, site=phase)
+    if case.get("runtime") == "trio":
+        base["runtime"] = "trio"
     if case.get("cancel"):
         c0 = callers[0]
         base["in_shield"] = bool(c0.in_shield_at_delivery if c0.delivery_site is not None else c0.in_shield_at_cancel)
         if c0.cancel_site and c0.delivery_site and c0.cancel_site[0] != c0.delivery_site[0]:
             base["requested_at"] = c0.cancel_site[0]
-    what = (f"{case['kind']}/{case['context']}/{case['shape']} faults={case.get('faults')} cancel={case.get('cancel')} "
+    what = (("[trio] " if case.get("runtime") == "trio" else "") + f"{case['kind']}/{case['context']}/{case['shape']} faults={case.get('faults')} cancel={case.get('cancel')} "
             f"(trigger {trigger} at {phase}{', inside a cancellation shield' if base.get('in_shield') else ''})")
     if run.overflow:
         v5.append(V("C05", "livelock", f"{what}: scheduler step limit exceeded", **base))
@@ -245,10 +249,10 @@ def judge(case, run, world, callers):
 _BASE_CACHE: dict = {}
 
 
-def base_counts(kind, ctx, shape):
-    key = (kind, ctx, shape)
+def base_counts(kind, ctx, shape, runtime=None):
+    key = (kind, ctx, shape, runtime)
     if key not in _BASE_CACHE:
-        run, world, callers = run_case({"kind": kind, "context": ctx, "shape": shape}, record_sites=True)
+        run, world, callers = run_case({"kind": kind, "context": ctx, "shape": shape, "runtime": runtime}, record_sites=True)
         elig = [(o["elig"], o["kind"]) for o in world.trace if "elig" in o and o["actor"] != "probe"]
         # cancellation points: every suspension index, except that a run of consecutive suspensions at the same source line
         # (e.g. the 99 semaphore acquisitions of the HTTP/2 connection set-up) is represented by its first, second and last
@@ -284,8 +288,29 @@ def enum_cases(tier):
     return cases
 
 
+def trio_cases(tier):
+    """The same base scenarios on the trio runtime (httpcore's trio branches of Lock / Event / Semaphore / shield / fail_after): every suspension
+    point of the victim x trio.CancelScope.cancel(), and every fault position x kind. quick: a fixed quarter of the kind/context/shape grid."""
+    kinds = KIND_LIST if tier == "thorough" else QUICK_KINDS
+    cases = []
+    for kind in kinds:
+        for ctx in CONTEXTS:
+            for shape in SHAPES:
+                if tier == "quick" and (KIND_LIST.index(kind) + 2 * CONTEXTS.index(ctx) + SHAPES.index(shape)) % 4 != 0:
+                    continue
+                elig, points = base_counts(kind, ctx, shape, "trio")
+                for k in points:
+                    cases.append({"kind": kind, "context": ctx, "shape": shape, "runtime": "trio", "cancel": {"style": "scope", "at": k}})
+                for idx, opkind in elig:
+                    for fault in FAULTS[opkind]:
+                        if tier == "quick" and fault in ("ConnectTimeout", "ReadTimeout", "WriteTimeout", "garbage"):
+                            continue  # quick: one error kind per op (+ eof); thorough: every documented kind
+                        cases.append({"kind": kind, "context": ctx, "shape": shape, "runtime": "trio", "faults": [{"at": idx, "fault": fault}]})
+    return cases
+
+
 def tags_for(case, fired, world):
-    tags = [case["kind"], "ctx-" + case["context"], "shape-" + case["shape"]]
+    tags = [case["kind"], "ctx-" + case["context"], "shape-" + case["shape"], "runtime-" + (case.get("runtime") or "asyncio")]
     if case.get("cancel"):
         tags.append("cancel-" + case["cancel"]["style"])
     for f in world.fired_faults:
@@ -302,7 +327,7 @@ def make_execute(prop_id):
         vio = v5 if prop_id == "C05" else v6
         nontrivial = fired and (prop_id == "C05" or len(world.pipes) > 0)
         trig = case.get("cancel") or case.get("faults")
-        key = [case["kind"], case["context"], case["shape"], trig, case.get("choices"), case.get("segs")]
+        key = [case["kind"], case["context"], case["shape"], trig, case.get("choices"), case.get("segs"), case.get("runtime")]
         return Outcome(vio[:6], tags_for(case, fired, world), nontrivial, key=key,
                        info={"pool": run.result.get("repr"), "probe": run.result.get("probe"), "steps": run.steps,
                              "callers": [[(o.get("status") or (o["exc"] or {}).get("name")) for o in c.results] + (["cancelled"] if c.cancelled else [])
@@ -422,11 +447,13 @@ def random_cases(draw):
     shape = draw(st.sampled_from(SHAPES))
     case = {"kind": kind, "context": ctx, "shape": shape, "max_connections": draw(st.sampled_from([1, 1, 2, 3])),
             "choices": draw(st.lists(st.integers(0, 7), max_size=30)), "segs": draw(st.lists(st.sampled_from([0, 1, 3, 10, 100]), max_size=4))}
+    if draw(st.integers(0, 3)) == 0:
+        case["runtime"] = "trio"
     n = draw(st.integers(1, 2))
     faults = []
     for _ in range(n):
         if draw(st.integers(0, 2)) == 0 and "cancel" not in case:
-            case["cancel"] = {"style": draw(st.sampled_from(STYLES)), "at": draw(st.integers(1, 40))}
+            case["cancel"] = {"style": "scope" if case.get("runtime") == "trio" else draw(st.sampled_from(STYLES)), "at": draw(st.integers(1, 40))}
         else:
             at = draw(st.integers(0, 40))
             faults.append({"at": at, "fault": draw(st.sampled_from(["error", "error", "timeout", "eof", "garbage"]))})
@@ -444,12 +471,12 @@ RULE5 = ("enumerated layer: connection kind (direct h1 plain/TLS, h2 via ALPN / 
          "request to the same origin) x shape (GET, POST with a 2-chunk body, streamed response closed after 2 chunks). Each base scenario is "
          "run fault-free under the fair schedule; then one run for EVERY fault-eligible network op index x every documented fault kind of that "
          "op (connect/start_tls: ConnectError, ConnectTimeout; read: ReadError, ReadTimeout, EOF, garbage (malformed peer bytes -> protocol error); write: WriteError, WriteTimeout) and one run "
-         "for EVERY suspension point of the victim x {asyncio task.cancel(), anyio CancelScope.cancel()}. thorough: all 13 kinds x 3 x 3; quick: "
+         "for EVERY suspension point of the victim x {asyncio task.cancel(), anyio CancelScope.cancel()}; layer 'trio' repeats both halves on the trio runtime (trio.CancelScope.cancel()). thorough: all 13 kinds x 3 x 3; quick: "
          "8 kinds, a fixed third of the context/shape grid. random layer: drawn kind/context/shape, max_connections 1-3, 1-2 faults / a "
          "cancellation at drawn positions, drawn schedule and read segmentation. Non-trivial: the fault or cancellation actually fired; "
          "distinct by (kind, context, shape, trigger position, schedule).")
 
-ASSUME = ["cancellation layers run on asyncio + anyio (no trio run); the sync pool gets the fault half in layer 'sync-faults' (every fault position x kind of "
+ASSUME = ["cancellation layers run on asyncio + anyio (task.cancel, anyio scope) and, in layer 'trio' and a quarter of the random layer, on a harness-scheduled trio run (trio.CancelScope); the sync pool gets the fault half in layer 'sync-faults' (every fault position x kind of "
           "every connection kind x shape, single caller, followed by two sequential probes and pool.close())",
           "faults are the documented failure kinds of each backend operation; an error fault breaks the simulated pipe like a reset",
           "state is judged only after every caller has returned and the event loop is quiescent",
@@ -461,6 +488,7 @@ PROP = Prop(
         Layer("enumerated", cases=enum_cases, execute=make_execute("C05")),
         Layer("random", strategy=random_cases, execute=make_execute("C05"), budget={"quick": 1200, "thorough": 60000}),
         Layer("sync-faults", stall_is_violation=True, cases=sync_cases, execute=make_sync_execute("C05")),
+        Layer("trio", cases=trio_cases, execute=make_execute("C05")),
     ],
     assumptions=ASSUME,
     explanation="The enumerated layer is exhaustive over fault positions x kinds and cancellation points x styles for the listed base scenarios.",
